@@ -2,6 +2,7 @@ package harness
 
 import (
 	"fmt"
+	"strings"
 	"strconv"
 
 	z "github.com/Oudwins/zog"
@@ -15,9 +16,25 @@ import (
 var cfgTypes = []string{"string", "number", "bool", "time", "slice", "struct"}
 var cfgCodes = []string{"required", "coerce", "min", "max", "len", "gt", "gte", "lt", "lte", "eq", "contains", "one_of_options", "fallback", "not_nil", "after", "true"}
 
-func genCfgOp(r *Rng) Op {
+func genCfgOp(r *Rng, w *World) Op {
 	if r.P(0.25) {
 		return Op{Kind: "cfg", Arg: Pick(r, []string{"fmt:global", "fmt:default"})}
+	}
+	// mostly a message this world's schemas can actually produce
+	var cands [][2]string
+	for _, sn := range w.Schemas {
+		sn.Walk(func(n *Node) {
+			cands = append(cands, [2]string{n.ZType(), "required"}, [2]string{n.ZType(), "coerce"})
+			for _, t := range n.Tests {
+				if t.T != "custom" && t.Code == "" && t.Msg == "" && !t.MsgFn {
+					cands = append(cands, [2]string{n.ZType(), DefaultCode(t)})
+				}
+			}
+		})
+	}
+	if len(cands) > 0 && r.P(0.8) {
+		c := cands[r.Intn(len(cands))]
+		return Op{Kind: "cfg", Arg: "msg", Input: VM(KV{"type", VS(c[0])}, KV{"code", VS(c[1])}, KV{"text", VS("edited " + strconv.Itoa(r.Intn(3)))})}
 	}
 	return Op{Kind: "cfg", Arg: "msg", Input: VM(KV{"type", VS(Pick(r, cfgTypes))}, KV{"code", VS(Pick(r, cfgCodes))}, KV{"text", VS("edited " + strconv.Itoa(r.Intn(3)))})}
 }
@@ -198,8 +215,8 @@ func genC07(r *Rng, tier string) *World {
 			ops = append(ops, Op{Kind: "clear"})
 			continue
 		}
-		if r.P(0.07) {
-			ops = append(ops, genCfgOp(r))
+		if r.P(0.1) {
+			ops = append(ops, genCfgOp(r, w))
 			continue
 		}
 		op := genExecOp(r, w, cfgs, 0.35)
@@ -238,6 +255,8 @@ func runC07(x *X) *Violation {
 	ops := w.Tasks[0]
 	x.BuildSchemas()
 	x.FreshRun("h/")
+	edited := map[string]string{} // "type|code" -> the text the global message map holds right now
+	globalCustom := false
 	var undo []func()
 	defer func() {
 		for i := len(undo) - 1; i >= 0; i-- {
@@ -261,8 +280,32 @@ func runC07(x *X) *Violation {
 			undo = append(undo, applyCfg(op))
 			x.Event("cfg " + op.Arg + " " + op.Input.String())
 			x.Faults["cfg_edit"]++
+			switch op.Arg {
+			case "fmt:global":
+				globalCustom = true
+			case "fmt:default":
+				globalCustom = false
+			case "msg":
+				var t, c, text string
+				for _, kv := range op.Input.M {
+					switch kv.K {
+					case "type":
+						t = kv.V.S
+					case "code":
+						c = kv.V.S
+					case "text":
+						text = kv.V.S
+					}
+				}
+				if conf.DefaultIssueMessageMap[zconst.ZogType(t)] != nil {
+					edited[t+"|"+c] = text
+				}
+			}
 		case "parse", "validate":
 			res := x.Exec(tag, op)
+			if v := checkEdited(op, res, edited, globalCustom); v != nil {
+				return v
+			}
 			if len(res.Issues) > 0 || len(op.Opts) > 0 || res.Panic != "" {
 				hadState = true
 			}
@@ -289,6 +332,9 @@ func runC07(x *X) *Violation {
 	x.SetPhase("p/")
 	reuse0 := x.R.Stats["pool_reuse_across_calls"]
 	rp := x.Exec(ptag, probe)
+	if v := checkEdited(probe, rp, edited, globalCustom); v != nil {
+		return v
+	}
 	reused := x.R.Stats["pool_reuse_across_calls"] - reuse0
 	if reused > 0 {
 		x.Probes["pool_reuse_across_calls"]++
@@ -326,6 +372,41 @@ func runC07(x *X) *Violation {
 	if f, d := CompareResults(rp, rf); f != "" {
 		cls := "C07/probe-differs " + f
 		return &Violation{Class: cls, Detail: "after history vs fresh process: " + d}
+	}
+	return nil
+}
+
+// checkEdited: an issue whose (type, code) text was edited in the global message map is worded with the text the map
+// holds at the moment of the call - unless something more specific words it (the harness' own test-level messages and
+// formatters all carry a recognisable prefix).
+func checkEdited(op *Op, res *Result, edited map[string]string, globalCustom bool) *Violation {
+	if len(edited) == 0 || globalCustom || res.Panic != "" {
+		return nil
+	}
+	for _, o := range op.Opts {
+		if o.K == "fmt" && o.Fmt == "stamp" {
+			return nil
+		}
+	}
+	for _, a := range res.Issues {
+		want, ok := edited[a.Type+"|"+a.Code]
+		if !ok || a.Msg == want {
+			continue
+		}
+		own := false
+		for _, p := range []string{"MF:", "TF:", "EXEC:", "GLOBAL:", "pt-issue", "pre:", "BASE MESSAGE", "RM"} {
+			if strings.HasPrefix(a.Msg, p) {
+				own = true
+			}
+		}
+		if len(a.Msg) >= 2 && a.Msg[0] == 'M' && a.Msg[1] >= '0' && a.Msg[1] <= '9' {
+			own = true // z.Message("M<i>") on the test
+		}
+		if own {
+			continue
+		}
+		return &Violation{Class: "C07/message-ignores-current-configuration type=" + a.Type,
+			Detail: fmt.Sprintf("conf.DefaultIssueMessageMap[%s][%s] is %q at the moment of this call, the issue says %q (%s)", a.Type, a.Code, want, a.Msg, a.Full())}
 	}
 	return nil
 }
